@@ -30,7 +30,7 @@ typedef struct {
 	unsigned seed;
 	uint64_t id;                    /* request id seen on the wire (0 until fully sent) */
 	time_t add_time, sent_time;
-	int sent_complete, valid_reply_arrived, id_reply_arrived, returned;
+	int sent_complete, valid_reply_arrived, id_reply_arrived, stale_id_reply_arrived, returned;
 	int answered;                   /* server side: a valid reply was queued */
 } sreq_t;
 
@@ -47,7 +47,7 @@ typedef struct {
 	config_t cfg;
 	KSI_CTX *ctx;
 	KSI_AsyncService *svc;
-	sreq_t req[MAXREQ]; int nreq; int nreturned;
+	sreq_t req[MAXREQ]; int nreq; int nreturned; int total_added;
 	sreply_t reply[MAXREPLY]; int nreply;
 	vbuf last_valid_reply; uint64_t last_valid_id; unsigned last_valid_seed;
 	uint64_t last_returned_id;
@@ -196,7 +196,7 @@ static void note_arrivals(void) {
 		rp->arrived = 1;
 		switch (rp->kind) {
 			case 0: for (j = 0; j < W.nreq; j++) if (W.req[j].id == rp->id && W.req[j].sent_complete && !W.req[j].returned) { W.req[j].id_reply_arrived = 1; if (W.req[j].seed == rp->seed) W.req[j].valid_reply_arrived = 1; } break;
-			case 4: for (j = 0; j < W.nreq; j++) if (W.req[j].id == rp->id && W.req[j].sent_complete && !W.req[j].returned) { W.req[j].id_reply_arrived = 1; if (W.req[j].seed == rp->seed) W.req[j].valid_reply_arrived = 1; } break;
+			case 4: for (j = 0; j < W.nreq; j++) if (W.req[j].id == rp->id && W.req[j].sent_complete && !W.req[j].returned) { W.req[j].id_reply_arrived = 1; if (W.req[j].seed == rp->seed) W.req[j].valid_reply_arrived = 1; else if (!W.req[j].valid_reply_arrived) W.req[j].stale_id_reply_arrived = 1; } break;
 			case 1: W.cause_baddata = 1; break;
 			case 2: W.cause_status = 1; break;
 			case 3: W.conf_pending++; break;
@@ -231,7 +231,8 @@ static void check_returned(KSI_AsyncHandle *h) {
 		if (r != KSI_OK || sig == NULL) {
 			/* an authentic reply with this id but chains for another hash yields no signature: allowed; an honest reply must */
 			vf_outcome("returned:response-without-signature");
-			if (W.req[idx].valid_reply_arrived) { HF("honest-reply-no-signature", "request #%d: an honest reply arrived but getSignature failed 0x%x", idx, r); W.violated = 1; }
+			if (W.req[idx].valid_reply_arrived && W.req[idx].stale_id_reply_arrived) { HF("completed-with-stale-reply", "request #%d (id %llx): an authentic reply from an earlier occupant of the same id (the id generation counter has wrapped) arrived before the honest reply and completed the request; getSignature fails 0x%x and the honest reply is discarded", idx, (unsigned long long)W.req[idx].id, r); W.violated = 1; }
+			else if (W.req[idx].valid_reply_arrived) { HF("honest-reply-no-signature", "request #%d: an honest reply arrived but getSignature failed 0x%x", idx, r); W.violated = 1; }
 		} else {
 			KSI_DataHash *dh = NULL;
 			unsigned char hh[RH_MAX_IMPRINT];
@@ -291,14 +292,15 @@ static int apply(int ev) {
 			size_t hl;
 			int res;
 			if (W.nreq >= MAXREQ) return 0;
-			hl = ref_fake_imprint(RH_SHA256, 100u + (unsigned)W.nreq, hh);
+			hl = ref_fake_imprint(RH_SHA256, 100u + (unsigned)W.total_added, hh);
 			KSI_DataHash_fromImprint(W.ctx, hh, hl, &dh);
 			if (KSI_AsyncSigningHandle_new(W.ctx, dh, 0, &h) != KSI_OK) vf_harness_error("handle new");
 			res = KSI_AsyncService_addRequest(W.svc, h);
 			vf_count("impl_calls", 1);
 			if (res == KSI_OK) {
 				if (outstanding() >= W.cfg.cache) { HF("cache-overfull", "request accepted although %d requests are outstanding with cache size %d", outstanding(), W.cfg.cache); W.violated = 1; }
-				W.req[W.nreq].h = h; W.req[W.nreq].seed = 100u + (unsigned)W.nreq; W.req[W.nreq].add_time = sn_now; W.nreq++;
+				memset(&W.req[W.nreq], 0, sizeof W.req[0]);
+				W.req[W.nreq].h = h; W.req[W.nreq].seed = 100u + (unsigned)W.total_added; W.total_added++; W.req[W.nreq].add_time = sn_now; W.nreq++;
 				vf_outcome("add:accepted");
 			} else {
 				if (res == KSI_ASYNC_REQUEST_CACHE_FULL) {
@@ -504,6 +506,56 @@ static void explore(const config_t *cfg, int *hist, int n, int maxdepth) {
 }
 
 
+/* long horizon: sequential requests through a one-slot cache until the 8-bit id generation wraps, with one
+ * stale reply injected at a chosen position: a duplicate of the reply of the previous occupant of the slot,
+ * of the occupant 255 generations ago (identical id), or of the next generation */
+static void part_wrap(void) {
+	static const config_t cfg = {1, 1, 10, 10, 10};
+	int total = VF_THOROUGH ? 300 : 264, pos, kind;
+	for (kind = 0; kind < 3; kind++) for (pos = (kind == 1 ? 255 : 1); pos < total; pos += (VF_THOROUGH ? 1 : 7)) {
+		int k, ok = 1;
+		vbuf *old = NULL;
+		uint64_t *old_id = NULL;
+		unsigned *old_seed = NULL;
+		if (!vf_case_begin("wrap:kind%d:pos%d", kind, pos)) continue;
+		snprintf(g_hist, sizeof g_hist, "wrap%d@%d", kind, pos);
+		world_open(&cfg);
+		old = calloc((size_t)total, sizeof(vbuf));
+		old_id = calloc((size_t)total, sizeof *old_id);
+		old_seed = calloc((size_t)total, sizeof *old_seed);
+		for (k = 0; k < total && ok; k++) {
+			sn_conn *c;
+			int guard = 0;
+			if (!apply(EV_ADD)) { HF("wrap-add", "request %d not accepted", k); break; }
+			apply(EV_RUN);                       /* connect + send */
+			while (!W.req[W.nreq - 1].sent_complete && guard++ < 5) { sn_now += 1; apply(EV_RUN); }
+			c = live_conn();
+			if (!c || !W.req[W.nreq - 1].sent_complete) { HF("wrap-send", "request %d not sent", k); break; }
+			if (k == pos) {
+				/* the injected stale reply goes first */
+				int src = kind == 0 ? k - 1 : kind == 1 ? k - 255 : -1;
+				if (src >= 0) queue_reply2(c, &old[src], 4, old_id[src], old_seed[src]);
+				else { sreq_t fake = W.req[W.nreq - 1]; vbuf b; vb_init(&b); build_reply(&b, &fake, W.req[W.nreq - 1].id + (1ULL << 32), 0, 0); queue_reply2(c, &b, 4, 0, 0); vb_free(&b); }
+			}
+			apply(EV_REPLY_OLDEST);
+			vb_init(&old[k]); vb_putvb(&old[k], &W.last_valid_reply); old_id[k] = W.last_valid_id; old_seed[k] = W.last_valid_seed;
+			apply(EV_DELIVER_ALL);
+			guard = 0;
+			while (outstanding() > 0 && guard++ < 5) apply(EV_RUN);
+			if (outstanding() > 0) { HF("request-lost", "request %d of the wrap sequence not handed back", k); ok = 0; }
+			if (W.violated) ok = 0;
+			sn_now += 1;
+			/* forget returned requests so that the fixed-size shadow tables suffice */
+			if (W.nreq == MAXREQ - 1) { W.nreq = 0; W.nreturned = 0; W.nreply = 0; }
+		}
+		for (k = 0; k < total; k++) vb_free(&old[k]);
+		free(old); free(old_id); free(old_seed);
+		world_close();
+		vf_count("transitions", (long)total * 5);
+		vf_case_end(1);
+	}
+}
+
 static void run(void) {
 	int ci, e1, e2;
 	int depth = VF_THOROUGH ? 8 : 6;
@@ -530,6 +582,7 @@ static void run(void) {
 		}
 	}
 	free(seen);
+	part_wrap();
 }
 
 int main(int argc, char **argv) {
